@@ -357,6 +357,42 @@ void adapter_exec(Ev *ev)
         }
         return;
     }
+    if (ev_is(ev, "tinitbig")) {
+        /* tinitbig n be: one memory-backed area [0, n) (shifted by abase) with n u16 registers, register j at address j with
+         * default (7 j) mod 2^16 - more registers than a 16-bit handle can name.  Observation: code first last count */
+        drop();
+        long long n = ev->a[0];
+        be = (int)ev->a[1];
+        na = 1; nr = (int)n; ps_area = -1;
+        A[0].base = 0; A[0].size = n; A[0].rd = 1; A[0].wr = 1; A[0].skip = 0; A[0].hasw = 1; A[0].kind = 0;
+        areas = xblock(sizeof(RegisterArea) * 2);
+        memset(areas, 0, sizeof(RegisterArea) * 2);
+        store[0] = xblock(sizeof(RegisterAtom) * (size_t)n);
+        memset(store[0], 0x77, sizeof(RegisterAtom) * (size_t)n);
+        memset(&areas[0].entry, 0x5A, sizeof areas[0].entry);
+        areas[0].base = (RegisterAddress)0 + SH; areas[0].size = (RegisterOffset)n;
+        areas[0].flags = REG_AF_READABLE | REG_AF_WRITEABLE;
+        areas[0].mem = store[0]; areas[0].read = reg_mem_read; areas[0].write = reg_mem_write;
+        entries = xblock(sizeof(RegisterEntry) * (size_t)(n + 1));
+        memset(entries, 0, sizeof(RegisterEntry) * (size_t)(n + 1));
+        for (long long j = 0; j < n; j++) {
+            entries[j].type = REG_TYPE_UINT16;
+            entries[j].address = (RegisterAddress)j + SH;
+            entries[j].default_value.u16 = (uint16_t)((j * 7) % 65536);
+            entries[j].check.type = REGV_TYPE_TRIVIAL;
+        }
+        entries[n].type = REG_TYPE_INVALID;
+        memset(&T, 0, sizeof T);
+        T.area = areas; T.entry = entries;
+        register_make_bigendian(&T, be != 0);
+        have = 1;
+        in_init = 1;
+        RegisterInit ri = register_init(&T);
+        in_init = 0;
+        obs(ev, (long long)ri.code);
+        obs(ev, areas[0].entry.first); obs(ev, areas[0].entry.last); obs(ev, areas[0].entry.count);
+        return;
+    }
     if (!have) { fprintf(stderr, "regtab: no table\n"); exit(2); }
     if (ev_is(ev, "set")) {
         RegisterValue v;
